@@ -1,50 +1,29 @@
-/- MANTIS, configuration 64be: the generated pieces equal the reference forms -/
-import SkinnyVerif.Lemmas.MantisRef
+/- MANTIS, configuration 64be: the generated pieces equal the reference forms
+   (each piece is proved in its own module `MantisPieces_64be_<piece>`) -/
+import SkinnyVerif.Lemmas.MantisPieces_64be_pre
+import SkinnyVerif.Lemmas.MantisPieces_64be_fwd
+import SkinnyVerif.Lemmas.MantisPieces_64be_mid
+import SkinnyVerif.Lemmas.MantisPieces_64be_bwd
+import SkinnyVerif.Lemmas.MantisPieces_64be_post
+import SkinnyVerif.Lemmas.MantisPieces_64be_preT
+import SkinnyVerif.Lemmas.MantisPieces_64be_fwdT
+import SkinnyVerif.Lemmas.MantisPieces_64be_midT
+import SkinnyVerif.Lemmas.MantisPieces_64be_bwdT
+import SkinnyVerif.Lemmas.MantisPieces_64be_postT
 
 namespace SkinnyVerif.Lemmas
 open SkinnyVerif SkinnyVerif.Gen SkinnyVerif.Impl
 
-set_option maxRecDepth 8000
-set_option maxHeartbeats 8000000
-
 theorem mantisPieces_64be : MantisPiecesOK (opsMantis .c64be) where
-  pre := by
-    intro input ks
-    refine Prod.ext ?_ (Prod.ext ?_ ?_) <;> simp only [opsMantis] <;> mantis_bits
-  fwd := by
-    intro st tw k1 r
-    refine Prod.ext ?_ ?_ <;> simp only [opsMantis] <;> mantis_bits
-  mid := by
-    intro st k1
-    refine Prod.ext ?_ ?_ <;> simp only [opsMantis]
-    · mantis_bits_sbox
-    · mantis_bits
-  bwd := by
-    intro st tw k1 r
-    refine Prod.ext ?_ ?_ <;> simp only [opsMantis]
-    · mantis_bits_sbox
-    · mantis_bits
-  post := by
-    intro st tw k1 ks
-    simp only [opsMantis]; mantis_bits
-  preT := by
-    intro input ks tw
-    refine Prod.ext ?_ (Prod.ext ?_ ?_) <;> simp only [opsMantis] <;> mantis_bits
-  fwdT := by
-    intro st tw k1 r
-    refine Prod.ext ?_ ?_ <;> simp only [opsMantis] <;> mantis_bits
-  midT := by
-    intro st k1
-    refine Prod.ext ?_ ?_ <;> simp only [opsMantis]
-    · mantis_bits_sbox
-    · mantis_bits
-  bwdT := by
-    intro st tw k1 r
-    refine Prod.ext ?_ ?_ <;> simp only [opsMantis]
-    · mantis_bits_sbox
-    · mantis_bits
-  postT := by
-    intro st tw k1 ks
-    simp only [opsMantis]; mantis_bits
+  pre := mantisPiece_64be_pre
+  fwd := mantisPiece_64be_fwd
+  mid := mantisPiece_64be_mid
+  bwd := mantisPiece_64be_bwd
+  post := mantisPiece_64be_post
+  preT := mantisPiece_64be_preT
+  fwdT := mantisPiece_64be_fwdT
+  midT := mantisPiece_64be_midT
+  bwdT := mantisPiece_64be_bwdT
+  postT := mantisPiece_64be_postT
 
 end SkinnyVerif.Lemmas
